@@ -60,6 +60,17 @@ def main():
             demo_clean = d.returncode
         r = sh(['git', '-C', wt, 'apply', patch])
         if r.returncode:
+            # /repo's HEAD moved on since the patch was written (a later fix: commit touched lines nearby): three-way merge
+            r = sh(['git', '-C', wt, 'apply', '--3way', patch])
+            sh(['git', '-C', wt, 'reset', '-q'])
+            result['applied_with_3way_merge'] = r.returncode == 0
+            if r.returncode == 0:
+                # keep the change as a diff against the current HEAD next to the original
+                with open(patch + '.rebased', 'w') as f:
+                    f.write(sh(['git', '-C', wt, 'diff', '--', 'glom']).stdout)
+            if r.returncode:
+                sh(['git', '-C', wt, 'checkout', '--', 'glom'])
+        if r.returncode:
             print('PATCH DOES NOT APPLY:', r.stdout)
             result['applies'] = False
             print(json.dumps(result))
